@@ -969,6 +969,51 @@ def exit_id(f: Fn, x: ast.AST) -> str:
     return '%s@%s' % (what, gt[-1] if gt else 'entry')
 
 
+def r15_10_duplicates_leave_the_node_alone(ctx, rid='R15.10'):
+    """"duplicate keys raising SeasoningError only in strict mode" - and otherwise "the node is left unchanged": where a transform
+    tests a key against the set of keys it has seen, the duplicate case leaves the function on both sides of `strict` (raise / silent
+    return) before anything is written; it must not fall through to the construction."""
+    P = ctx.P
+    r = ctx.rule(rid, 'a duplicate key ends the transform before any write: raise under strict, silent return otherwise', floor=1)
+    n = 0
+    for name in TRANSFORMS:
+        f = fn(P, NODE + name)
+        params = f.fi.params
+        if 'strict' not in params:
+            continue
+        # the sets of seen keys: locals that receive .add(<key text>) in a loop
+        seen = {c.func.value.id for c in f.walk() if isinstance(c, ast.Call) and isinstance(c.func, ast.Attribute) and c.func.attr == 'add'
+                and isinstance(c.func.value, ast.Name) and enclosing_loops(c, f.node)}
+        tests = [b for b in f.cfg.nodes if b.kind == 'test' and any(
+            isinstance(x, ast.Compare) and len(x.ops) == 1 and isinstance(x.ops[0], (ast.In, ast.NotIn)) and isinstance(x.comparators[0], ast.Name)
+            and x.comparators[0].id in seen for x in ast.walk(b.ast))]
+        if not seen or not tests:
+            continue
+        n += 1
+
+        def dup(x):
+            """is exit x taken only when a key was seen before?"""
+            for g, p in f.guards(x):
+                for cmp_ in [y for y in ast.walk(g) if isinstance(y, ast.Compare) and len(y.ops) == 1 and isinstance(y.ops[0], (ast.In, ast.NotIn))
+                             and isinstance(y.comparators[0], ast.Name) and y.comparators[0].id in seen]:
+                    t, pol = G.canon_atom(cmp_, True)
+                    if any(G.canon_atom(a_, p_) == (t, True) for a_, p_ in S.conj_atoms(g, p)):
+                        return True
+            return False
+        raises = [x for x in f.raises() if dup(x)]
+        rets = [x for x in f.returns() if x.value is None and dup(x)]
+        strict_raise = [x for x in raises if any(t == 'strict' for t in f.guard_texts(x))]
+        r.check(bool(strict_raise), '%s: a duplicate key raises under strict' % name, f.key('duplicate:no-strict-raise'), f.loc(),
+                '%s never raises for a duplicate key in strict mode' % name)
+        silent = [x for x in rets if not any(t == 'strict' for t in f.guard_texts(x))]
+        r.check(bool(silent), '%s: a duplicate key without strict returns before anything is written' % name, f.key('duplicate:no-silent-return'),
+                f.loc(tests[0].ast), '%s has no silent return for a duplicate key when strict is false: it goes on and builds the mapping from '
+                'items with equal keys - the node is changed (and holds a duplicate key) where the documentation says it is left alone' % name)
+    if not n:
+        r.ok('no transform tests keys against a set of seen keys')
+    r.done()
+
+
 def r15_2_do_nothing_exits(ctx, rid='R15.2', guards_only: bool = False):
     """guards_only: just the clause "kind and presence are established before anything is written" (what makes a second application
     through an alias find nothing to do)"""
